@@ -855,40 +855,27 @@ func RuleE1(c *Ctx) {
 	for mask := 0; mask < 16; mask++ {
 		zero := func(i int) bool { return mask&(1<<i) != 0 }
 		key := fmt.Sprintf("Equal:outcome(x1=0:%v,y1=0:%v,x2=0:%v,y2=0:%v)", zero(0), zero(1), zero(2), zero(3))
-		b := fn.Blocks[0]
-		var ret *ssa.Return
+		// abstract outcome: each IsZero test of one of the four coordinates is decided by the mask; boolean
+		// temporaries, && / || and flipped branches are all followed by the walker
 		undec := ""
-		for steps := 0; steps < 64 && ret == nil && undec == ""; steps++ {
-			last := b.Instrs[len(b.Instrs)-1]
-			switch x := last.(type) {
-			case *ssa.Return:
-				ret = x
-			case *ssa.Jump:
-				b = b.Succs[0]
-			case *ssa.If:
-				v, pos := core.BoolCond(x.Cond)
-				call, ok := v.(*ssa.Call)
-				if !ok || !core.IsMethod(core.Callee(call.Common()), "bls12-381/fr", "Element", "IsZero") {
-					undec = "branch on something other than a zero test of a coordinate: " + v.String()
-					break
-				}
-				i, known := idx[core.SourcePath(call.Call.Args[0])]
-				if !known {
-					undec = "zero test on " + core.SourcePath(call.Call.Args[0]) + ", not one of the four coordinates"
-					break
-				}
-				val := zero(i)
-				if !pos {
-					val = !val
-				}
-				if val {
-					b = b.Succs[0]
-				} else {
-					b = b.Succs[1]
-				}
-			default:
-				undec = "unexpected block terminator"
+		abs := func(v ssa.Value) (int64, bool) {
+			call, ok := v.(*ssa.Call)
+			if !ok || !core.IsMethod(core.Callee(call.Common()), "bls12-381/fr", "Element", "IsZero") {
+				return 0, false
 			}
+			i, known := idx[core.SourcePath(call.Call.Args[0])]
+			if !known {
+				undec = "zero test on " + core.SourcePath(call.Call.Args[0]) + ", not one of the four coordinates"
+				return 0, false
+			}
+			if zero(i) {
+				return 1, true
+			}
+			return 0, true
+		}
+		ret, _, why := core.Walk(fn, abs)
+		if ret == nil && undec == "" {
+			undec = why
 		}
 		if undec != "" || ret == nil {
 			c.Und("E1", key, fn.Pos(), "cannot evaluate the guard: "+undec)
